@@ -1356,6 +1356,17 @@ impl Tuple {
         let freed = self.data.len() - last_needed_end;
         if freed > 0 {
             self.data.realloc(last_needed_end)?;
+
+            // With the whole history gone nothing refers to older version numbers any more:
+            // start counting again. Otherwise the one-byte counter only ever grows, and a row
+            // that is updated often (a table's catalog entry is, once per INSERT statement)
+            // refuses its 256th version for good, vacuumed or not.
+            if last_needed_end == layout.delta_start() {
+                let buffer = self.data.effective_data_mut();
+                let (mut header, _) = TupleHeader::read_from(buffer, 0);
+                header.version = 0;
+                header.write_to(buffer, 0);
+            }
         }
 
         Ok(freed)
